@@ -1176,6 +1176,14 @@ func checkMounted(e *ev.Env, c *ev.Case, p *mprog, g *mgen, reqs [][2]string) {
 							fmt.Sprintf("StrictRouting: %s %s skips the mounted app's Use(h) middleware h%d, which Group(prefix).Use(h) runs", m, path, trB.recs[i].ID), detail())
 						continue
 					}
+					// the same registration ('<mount>/' instead of '<mount>') seen from the other side:
+					// behind a mount prefix that ends in a parameter the slash moves the parameter's end,
+					// and the mounted app's Use(h) runs where Group(prefix).Use(h) does not
+					if i < len(trA.recs) && g.subRootUse[trA.recs[i].ID] {
+						e.Violation(c, "mount|strict-routing|prefixless-use-of-mounted-app-requires-slash-after-mount-path",
+							fmt.Sprintf("StrictRouting: %s %s runs the mounted app's Use(h) middleware h%d, which Group(prefix).Use(h) skips", m, path, trA.recs[i].ID), detail())
+						continue
+					}
 				}
 				e.Violation(c, "mount|"+what+"-differs|"+shapeOf(trA.recs, trB.recs),
 					fmt.Sprintf("%s %s: mounted composition and Group(prefix) composition differ in %s", m, path, what), detail())
